@@ -468,64 +468,90 @@ func runC10Size(e *Env, p *Plan) {
 	}
 	hc := &http.Client{Transport: &http.Transport{DialContext: e.N.Dialer(false), DisableKeepAlives: true}}
 	tok := 1
-	// ... and a small valid request after each, which must be unaffected by what
-	// came before (n = -1)
-	for _, n := range []int64{L - 1, -1, L, -1, L + 1, -1, L + 1, -1} {
-		if n == -1 {
-			if L < 64 {
-				continue
+	// send delivers a body in one of three ways: an HTTP POST with Content-Length,
+	// an HTTP POST of undeclared length (chunked), or the transport-agnostic
+	// RPCServer.HandleRequest
+	send := func(mode int, body []byte) (string, error) {
+		switch mode {
+		case 2:
+			var out bytes.Buffer
+			w.Servers[0].RPC.HandleRequest(context.Background(), struct{ io.Reader }{bytes.NewReader(body)}, &out)
+			return out.String(), nil
+		default:
+			var rd io.Reader = bytes.NewReader(body)
+			if mode == 1 {
+				rd = struct{ io.Reader }{rd} // net/http cannot size it: Transfer-Encoding: chunked
 			}
-			w.Register(Op{Kind: "call", Tok: tok, Client: 99})
-			body := []byte(fmt.Sprintf(`{"jsonrpc":"2.0","id":%d,"method":"T.Call","params":[%d]}`, tok, tok))
-			resp, err := hc.Post("http://"+p.Servers[0].Addr+"/rpc", "application/json", bytes.NewReader(body))
+			resp, err := hc.Post("http://"+p.Servers[0].Addr+"/rpc", "application/json", rd)
 			if err != nil {
-				e.Violate("C10.server-keeps-answering", "valid request after a refused body failed at transport level: %v", err)
-			} else {
-				rb, _ := io.ReadAll(resp.Body)
-				resp.Body.Close()
-				if want := fmt.Sprintf(`"result":"R%d:"`, tok); !strings.Contains(string(rb), want) || e.Tok(tok).Execs != 1 {
-					e.Violate("C10.server-keeps-answering", "a small valid request sent after bodies around the size limit got %q (handler ran %d times)", trunc(string(rb)), e.Tok(tok).Execs)
-				}
+				return "", err
 			}
-			tok++
-			continue
+			rb, _ := io.ReadAll(resp.Body)
+			resp.Body.Close()
+			return string(rb), nil
 		}
-		if n <= 0 {
-			continue
+	}
+	small := func(mode int) {
+		if L < 64 {
+			return
 		}
-		e.Probe("size-cases")
+		// a small valid request, which must be unaffected by what came before
 		w.Register(Op{Kind: "call", Tok: tok, Client: 99})
 		body := []byte(fmt.Sprintf(`{"jsonrpc":"2.0","id":%d,"method":"T.Call","params":[%d]}`, tok, tok))
-		valid := int64(len(body)) <= n
-		if valid {
-			body = append(body, bytes.Repeat([]byte(" "), int(n)-len(body))...)
-		} else {
-			body = bytes.Repeat([]byte(" "), int(n))
-			if n >= 2 {
-				body[0], body[n-1] = '[', ']'
-			}
-		}
-		resp, err := hc.Post("http://"+p.Servers[0].Addr+"/rpc", "application/json", bytes.NewReader(body))
+		rb, err := send(mode, body)
 		if err != nil {
-			e.Violate("C10.size-limit", "POST of %d bytes (limit %d) failed at transport level: %v", n, L, err)
-			tok++
-			continue
-		}
-		rb, _ := io.ReadAll(resp.Body)
-		resp.Body.Close()
-		tooBig := strings.Contains(string(rb), "bigger than maximum")
-		execs := e.Tok(tok).Execs
-		switch {
-		case n > L && !tooBig:
-			e.Violate("C10.size-limit", "body of %d bytes exceeds the limit %d but was not rejected as too big: %q", n, L, trunc(string(rb)))
-		case n > L && execs > 0:
-			e.Violate("C10.size-limit", "body of %d bytes exceeds the limit %d yet the handler ran", n, L)
-		case n <= L && tooBig:
-			e.Violate("C10.size-limit", "body of %d bytes is within the limit %d but was rejected as too big", n, L)
-		case n <= L && valid && (execs != 1 || !strings.Contains(string(rb), `"result":"R`)):
-			e.Violate("C10.size-limit", "valid body of %d bytes within the limit %d: handler ran %d times, reply %q", n, L, execs, trunc(string(rb)))
+			e.Violate("C10.server-keeps-answering", "valid request after a refused body failed at transport level: %v", err)
+		} else if want := fmt.Sprintf(`"result":"R%d:"`, tok); !strings.Contains(rb, want) || e.Tok(tok).Execs != 1 {
+			e.Violate("C10.server-keeps-answering", "a small valid request sent after bodies around the size limit got %q (handler ran %d times)", trunc(rb), e.Tok(tok).Execs)
 		}
 		tok++
+	}
+	sizes := []int64{L - 1, L, L + 1, L + 2}
+	if L <= 4096 {
+		sizes = append(sizes, 4*L)
+	}
+	modeName := []string{"POST with Content-Length", "chunked POST", "HandleRequest"}
+	for mode := 0; mode < 3; mode++ {
+		for _, n := range sizes {
+			if n <= 0 {
+				continue
+			}
+			e.Probe("size-cases")
+			w.Register(Op{Kind: "call", Tok: tok, Client: 99})
+			body := []byte(fmt.Sprintf(`{"jsonrpc":"2.0","id":%d,"method":"T.Call","params":[%d]}`, tok, tok))
+			valid := int64(len(body)) <= n
+			prefixOK := int64(len(body)) <= L // the first L bytes parse on their own
+			if prefixOK || valid {
+				if int(n) > len(body) {
+					body = append(body, bytes.Repeat([]byte(" "), int(n)-len(body))...)
+				}
+			} else {
+				body = bytes.Repeat([]byte(" "), int(n))
+				if n >= 2 {
+					body[0], body[n-1] = '[', ']'
+				}
+			}
+			rb, err := send(mode, body)
+			if err != nil {
+				e.Violate("C10.size-limit", "%s of %d bytes (limit %d) failed at transport level: %v", modeName[mode], n, L, err)
+				tok++
+				continue
+			}
+			tooBig := strings.Contains(rb, "bigger than maximum")
+			execs := e.Tok(tok).Execs
+			switch {
+			case n > L && execs > 0:
+				e.Violate("C10.size-limit", "%s: body of %d bytes exceeds the limit %d yet the handler ran (reply %q)", modeName[mode], n, L, trunc(rb))
+			case n > L && !tooBig:
+				e.Violate("C10.size-limit", "%s: body of %d bytes exceeds the limit %d but was not rejected as too big: %q", modeName[mode], n, L, trunc(rb))
+			case n <= L && tooBig:
+				e.Violate("C10.size-limit", "%s: body of %d bytes is within the limit %d but was rejected as too big", modeName[mode], n, L)
+			case n <= L && valid && (execs != 1 || !strings.Contains(rb, `"result":"R`)):
+				e.Violate("C10.size-limit", "%s: valid body of %d bytes within the limit %d: handler ran %d times, reply %q", modeName[mode], n, L, execs, trunc(rb))
+			}
+			tok++
+			small(mode)
+		}
 	}
 	w.Teardown()
 }
